@@ -84,7 +84,8 @@ ALL = {
             "parallel-kernel gate",
             "Every ordered pair of a 26(66)-letter alphabet of colliding calls and every ordered triple of the core alphabet are executed "
             "adjacently in fresh interpreters and each call is compared with the same call alone in a fresh interpreter; module "
-            "state vector digested around every call; all <=1(2)-preemption interleavings of pairs of public calls.",
+            "state vector digested around every call; every ordered pair of 17 Dask calls made while the other's result is still "
+            "lazy; all <=1(2)-preemption interleavings of pairs of public calls.",
             "Histories covered by windows (pairs/triples) inside long histories + depth-2 trie from the fresh state; real numba "
             "threads cannot be scheduled (gate + interpreted exploration instead).",
             "DESIGN.md §2 C11, §1.2 E2/E3d/E3e"),
